@@ -10,7 +10,8 @@ GROUPS = {
     'constrained': [('rule', I, {'ge': 0, 'lt': 10}), ('rule', S, {'max_length': 3}), ('rule', S, {'regex': '[a-z]+'}),
                     ('rule', I, {'multiple_of': 3}), ('rule', ('decimal',), {'max_digits': 4, 'decimal_places': 2}),
                     ('rule', ('float',), {'gt': 0.0}), ('rule', ('float',), {'ge': 0.0, 'le': 1.0}),
-                    ('list', ('rule', ('float',), {'ge': 0.0})), ('rule', ('list', I), {'unique_items': True, 'max_length': 2}),
+                    ('list', ('rule', ('float',), {'ge': 0.0})), ('crule', {'enum': ['a', 'b', 3]}), ('crule', {'const': 1}),
+                    ('list', ('crule', {'enum': [1, 2]})), ('dict', ('str',), ('crule', {'const': 'k'})), ('rule', ('list', I), {'unique_items': True, 'max_length': 2}),
                     ('rule', S, {'enum': ['a', 'b']}), ('rule', I, {'const': 1}), ('rule', ('dict', S, I), {'min_length': 1})],
     'generic': [('list', I), ('set', I), ('frozenset', I), ('tuple', [I, S]), ('vtuple', I), ('dict', S, I)],
     'nested': [('dict', I, ('list', I)), ('list', ('list', I)), ('list', ('opt', I)), ('list', ('dc', 'TInner')),
